@@ -79,7 +79,12 @@ def reachable(graph: dict[int, list[int]], depth: int, skip: set[int]) -> tuple[
 
 def gen_graph(rng: Any, big: bool = False) -> dict[int, list[int]]:
     n = rng.choice([2, 3, 4, 5, 6, 8, 12] if not big else [4, 8, 12, 16, 24])
-    ids = [1] + sorted(rng.sample(range(2, 0x7F), n - 1))
+    # session ids 0x02..0x7F (the whole sub-function range); the edges of the range come up more often than by chance
+    pool = list(range(2, 0x80))
+    picked = set(rng.sample(pool, n - 1))
+    if n > 2 and rng.random() < 0.3:
+        picked = set(list(picked)[: n - 2]) | {rng.choice([0x7F, 0x7F, 0x7E, 0x02, 0x40, 0x3F])}
+    ids = [1] + sorted(picked)
     style = rng.choice(["sparse", "dense", "chain", "cycle", "islands", "random"])
     g: dict[int, set[int]] = {s: {1} for s in ids}
     others = ids[1:]
@@ -119,7 +124,7 @@ class C09(Check):
     prop = "C09"
     level = "exploration"
     rule = (
-        "random transition graphs over 2-12 sessions from 1..0x7E {sparse, dense, chain, cycle, islands (component unreachable from the default session), "
+        "random transition graphs over 2-12 sessions from 1..0x7F (range edges 0x02, 0x3F/0x40, 0x7E, 0x7F boosted) {sparse, dense, chain, cycle, islands (component unreachable from the default session), "
         "sessions reachable only through non-default sessions} x depth 1-5 x skip lists (integers in any order, or command-line range expressions with overlaps; incl. the default session, ids not in the graph, numeric neighbours) x response code of a refused change {0x7E/0x12 told apart, always 0x12, always 0x7E} x thorough on/off x reset on/off x database on/off x tester-present "
         "interval / off x latency and segmentation; every graph gives every session an edge to the default session. "
         "non-trivial = at least one session is reachable only at depth >= 2, lies beyond the depth limit, is skipped or unreachable; "
@@ -158,7 +163,7 @@ class C09(Check):
         ids = sorted(g)
         plan["skip"] = sorted(rng.sample(ids[1:], rng.choice([0, 0, 1, 2]) if len(ids) > 2 else 0)) if len(ids) > 1 else []
         if rng.random() < 0.15:
-            plan["skip"] = sorted(set(plan["skip"]) | {rng.randrange(2, 0x7F)})
+            plan["skip"] = sorted(set(plan["skip"]) | {rng.randrange(2, 0x80)})
         if rng.random() < 0.12:
             plan["skip"] = sorted(set(plan["skip"]) | {1})
         nb = [t - 1 for t in g.get(1, []) if t >= 3]
@@ -171,7 +176,7 @@ class C09(Check):
             if rng.random() < 0.5:
                 x = rng.choice([s for s in plan["skip"] if s != 1] or [0x40])
                 lo = max(2, x - rng.randrange(0, 12))
-                plan["skip"] = sorted(set(plan["skip"]) | set(range(lo, min(0x7E, x + rng.randrange(1, 30)) + 1)))
+                plan["skip"] = sorted(set(plan["skip"]) | set(range(lo, min(0x7F, x + rng.randrange(1, 30)) + 1)))
             plan["skip_expr"] = encode_ranges(rng, plan["skip"])
         if plan["skip"] and not plan["skip_expr"]:
             rng.shuffle(plan["skip"])  # a list handed over through the Python API comes in any order
